@@ -464,6 +464,11 @@ def _reaches_user_code(cg, body_fn, f):
             continue
         if g.name in ("evaluate", "execute", "interpret") and g.cls is not None:
             return g.qual
+    # rendering a program value runs the program's own `_str_` member when the value is an object: conversions to
+    # string of an arbitrary value (asString / getAsString / string natives) reach it
+    for r in cg.refs(body_fn):
+        if r.is_call and r.kind in ("dispatch", "selfcall") and r.target in ("asString", "getAsString"):
+            return f".{r.target}() (renders a program value: an object's _str_ member is program code)"
     return ""
 
 
